@@ -1077,7 +1077,7 @@ fn plans(thorough: bool) -> Vec<Plan> {
     const SKIP: u32 = u32::MAX; // game not run in this tier
     let plans = vec![
         Plan { label: "anm sprite ids: sprite shape x id pattern per sprite (full product)", fam: "anm",
-               games: g(&[("th12", 0, 0), ("th06", 0, 0), ("th08", 0, 0), ("th07", SKIP, 0), ("th10", SKIP, 0), ("th17", SKIP, 0)]),
+               games: g(&[("th12", 0, 0), ("th06", 0, 0), ("th08", 0, 0), ("th17", SKIP, 0)]),
                prof: vec![F_SHAPE | F_IDS, 3, 3, if t { 4 } else { 3 }, 2], max_cases: 4_000_000 },
         Plan { label: "anm sprite ids (<= 3 sprites): shape x id pattern (full product) + 1 deviation", fam: "anm",
                games: g(&[("th12", SKIP, 1)]),
